@@ -18,6 +18,10 @@ theorem gen_parseSigFor (k : RecKind) (v : List Char) : Gen.parseSigFor k v = pa
 theorem gen_parseLabelFor (k : RecKind) (v : List Char) : Gen.parseLabelFor k v = parseLabelFor k v := by
   cases k <;> simp only [Gen.parseLabelFor, parseLabelFor, gen_parseLabel]
 
+/-- `Option.elim` as a `match`, so that `grind` splits on the optional values the printed code binds -/
+theorem elim_eq_match {α β : Type} (o : Option α) (e : β) (f : α → β) :
+    o.elim e f = (match o with | none => e | some v => f v) := by cases o <;> rfl
+
 theorem secOf_section (s : Section) : secOf s.kind s.dir = some s := by cases s <;> rfl
 
 theorem createKD_section (db : Db) (s : Section) : Db.createKD db s.kind s.dir = db.create s := by
@@ -216,24 +220,26 @@ theorem ref_parseFileLoop (file : List (List Char)) : ∀ (ls : List (List Char)
                 · simp only [hskp, Bool.not_true, Bool.false_eq_true, if_false, if_true, Sum.elim_inr]; exact ih _ _ _ _ _
                 · simp only [hskp, Bool.not_false, if_true, if_false]; rfl
 
-/-- the printed loop of the working tree = the model's line loop -/
-theorem gen_parseFileLoop (file : List (List Char)) : ∀ (ls : List (List Char)) (n : Nat) (db : Db) (state : PState) (sec : Option Section)
-    (label : Option DbLabel),
-    Gen.parseFileLines_loop0 file ls db (sec.bind Section.dir) label n (sec.map Section.kind) state
-      = dbOf (parseGo ls n { db := db, state := state, label := label, sec := sec }) := by
+theorem ref_parseFile (ls : List (List Char)) :
+    Ref.parseFileLoop ls ls Db.empty none none 1 none PState.needSection = parseLines ls := by
+  have := ref_parseFileLoop ls ls 1 Db.empty PState.needSection none none
+  simp only [Option.bind_none, Option.map_none] at this
+  rw [this]
+  rfl
+
+/-- stage 1: the printed `_parse_file` of the working tree against the frozen copy of its loop, started the way the pinned source
+    starts it.  Three ways this is shown: the generated file is the fallback alias (then it is the model's function and
+    `ref_parseFile` applies); the printed loop agrees with the copy argument for argument (by `rfl`, or by unfolding + congruence
+    + case analysis on the optional values when the source was rewritten); or the source counts lines from 0 and increments first
+    (`line_number = 0 … line_number += 1`), i.e. its counter is one behind the copy's. -/
+theorem gen_eq_ref (ls : List (List Char)) :
+    Gen.parseFileLines ls = Ref.parseFileLoop ls ls Db.empty none none 1 none PState.needSection := by
   first
-  | (intro ls n db state sec label
-     unfold Gen.parseFileLines_loop0
-     have hs : ((sec.map Section.kind).bind fun k => secOf k (sec.bind Section.dir)) = sec := by
-       cases sec with
-       | none => rfl
-       | some s => simp [secOf_section]
-     rw [hs]
-     rfl)
-  | (have h : ∀ (ls : List (List Char)) (db : Db) (dir : Option Dir) (label : Option DbLabel) (n : Nat) (rc : Option RecKind) (state : PState),
-         Gen.parseFileLines_loop0 file ls db dir label n rc state = Ref.parseFileLoop file ls db dir label n rc state := by
-       intro ls
-       induction ls with
+  | (rw [ref_parseFile]; exact rfl)
+  | (have h : ∀ (l : List (List Char)) (db : Db) (dir : Option Dir) (label : Option DbLabel) (n : Nat) (rc : Option RecKind) (state : PState),
+         Gen.parseFileLines_loop0 ls l db dir label n rc state = Ref.parseFileLoop ls l db dir label n rc state := by
+       intro l
+       induction l with
        | nil => intros; first | rfl | (unfold Gen.parseFileLines_loop0 Ref.parseFileLoop; rfl)
        | cons x xs ih =>
          intros
@@ -242,20 +248,27 @@ theorem gen_parseFileLoop (file : List (List Char)) : ∀ (ls : List (List Char)
          all_goals first
            | rfl
            | grind (splits := 80)
-     intro ls n db state sec label
-     rw [h]
-     exact ref_parseFileLoop file ls n db state sec label)
+           | (simp only [elim_eq_match]; grind (splits := 400) [Sum.elim_inl, Sum.elim_inr])
+     simp only [Gen.parseFileLines, h])
+  | (have h : ∀ (l : List (List Char)) (db : Db) (dir : Option Dir) (label : Option DbLabel) (n : Nat) (rc : Option RecKind) (state : PState),
+         Gen.parseFileLines_loop0 ls l db dir label n rc state = Ref.parseFileLoop ls l db dir label (n + 1) rc state := by
+       intro l
+       induction l with
+       | nil => intros; first | rfl | (unfold Gen.parseFileLines_loop0 Ref.parseFileLoop; rfl)
+       | cons x xs ih =>
+         intros
+         unfold Gen.parseFileLines_loop0 Ref.parseFileLoop
+         try simp only [ih]
+         all_goals first
+           | rfl
+           | grind (splits := 80)
+           | (simp only [elim_eq_match]; grind (splits := 400) [Sum.elim_inl, Sum.elim_inr])
+     simp only [Gen.parseFileLines, h, Nat.zero_add])
 
 /-- `_parse_file` as printed from the source = the model's line loop: for every sequence of lines, the same record store or
     the same error, line number included (C09: what a load denotes; C10: which errors can leave it; C11: nothing is kept of a
     failed load, since the value is only returned at the end) -/
 theorem gen_parseFileLines (ls : List (List Char)) : Gen.parseFileLines ls = parseLines ls := by
-  first
-  | exact rfl
-  | (unfold Gen.parseFileLines parseLines
-     have := gen_parseFileLoop ls ls 1 Db.empty PState.needSection none none
-     simp only [Option.bind_none, Option.map_none] at this
-     simp only [this, dbOf, PSt.init]
-     rfl)
+  rw [gen_eq_ref, ref_parseFile]
 
 end P0f
